@@ -1,6 +1,6 @@
 import RichModel.Lemmas.Totality
-import RichModel.Model.Frames
-import RichModel.Model.Table
+import RichModel.Lemmas.TotalityLayout
+import RichModel.Lemmas.AnsiLine
 /-!
 # C14 — no input makes the pipeline fail with an undocumented error
 
@@ -17,13 +17,11 @@ entry point that reaches `Color.parse`.
 Termination: every function of `Model/Totality.lean` is structurally recursive (accepted by Lean
 without `partial` / fuel); so are C04's tokenizer and C20's lookup which it calls.
 
-Not stated here (see the MANIFEST note of harness/props/c14.py).  Proved since in the files of the properties that
-own the models: the decoder's totality as `C19.decode_total` (Props/C19.lean), the table solver's as
-`C07.calc_widths_total` / `C07.table_render_total` / `C07.rich_measure_total` (Props/C07.lean, for
-`noColumnsAsserts = flexNegative = false`; the two witnesses at the end of this file show where rich 9.10.0 as found
-did raise, before fixes 1d61bac and ab98098), `Columns` as `C08.columns_repaired_never_raises` (Props/C08.lean).
-Still without a theorem: `text_ctor_total` and `print_plain_total` (C05 / C02 models: `Model/Text.lean` and
-`Model/ColorParse.lean` both declare `RichModel.Variant` and cannot be imported together).
+The second half composes the finished layers read-only: `decode_total` (C19's decoder model), `text_ctor_total` (C05),
+`wrap_total` / `text_render_total` / `print_plain_total` (C02's `Wrap.wrap`, C05's `Text`, the `Text.__rich_console__` glue of
+`Model/Layout.lean`, `Model/TotalityPrint.lean`), and `layout_total` over the inductive type `R` of renderable trees of
+`Model/Layout.lean` (C01/C09) with C07's table solver (`calcWidths_total`, for `noColumnsAsserts = flexNegative = false`) and
+C08's frames underneath; the two witnesses at the end show where rich 9.10.0 as found did raise (before fixes 1d61bac, ab98098).
 -/
 namespace RichModel.C14
 open RichModel RichModel.Totality AsciiStr
@@ -138,32 +136,167 @@ theorem old_get_style_raises :
 example : getStyle PyStr.ascii false defaultStack (.str (cl! "x")) (some (.str (cl! "rgb(1,,2)"))) = .error .missingStyle := by decide
 example : (getStyle PyStr.ascii false defaultStack (.str (cl! "no such")) (some (.str (cl! "bold")))).toOption.isSome = true := by decide
 
+/-! ## `AnsiDecoder.decode` (over C19's decoder model) -/
+
+/-- **decode_total.**  The repaired decoder (`int()` failures skipped, fix 8dc20cb) accepts every string: every line of
+`AnsiDecoder.decode(text)` decodes, whatever the decoder's carried style, the other code variants either way. -/
+theorem decode_total (cfg : Ansi.Cfg) (h : cfg.intRaises = false) (st : Style) (text : List Char) :
+    ∃ st' lines, Ansi.decode cfg st text = (st', .ok lines) := by
+  obtain ⟨st', ts, h1, _⟩ := Ansi.decodeMany_total (Ansi.decodeLine_total cfg h) st (Ansi.splitlines text)
+  exact ⟨st', ts, h1⟩
+
+example : Ansi.Cfg.repaired.intRaises = false := rfl
+
+/-- F10 on the decoder model as found: `"²".isdigit()` holds, `int("²")` raises. -/
+theorem old_decode_value_error :
+    (Ansi.decode Ansi.Cfg.old Style.null [Ansi.ESC, '[', '²', 'm']).2 = .error .valueError := by decide +kernel
+
+/-! ## `Text(...)`, `Text.wrap`, `Text.render`, `Console.print(markup=False)` -/
+
+section
+open RichModel.Text
+
+/-- **text_ctor_total.**  `Text(s, style, justify=…, overflow=…, no_wrap=…, end=…, tab_size=…)` constructs a consistent
+text for every string — control characters included (they are stripped, and `len()` counts what is kept) — and with any
+`spans` that lie inside the stripped text (C05: `inv_init`). -/
+theorem text_ctor_total {σ : Type} (s : List Char) (style : σ) (spans : List (Span σ)) (j : Option Justify) (o : Option Overflow)
+    (nw : Option Bool) (e : List Char) (ts : Option Nat) (hs : SpansIn spans ((stripControl s).length : Int)) :
+    Text.Inv (Text.new Variant.repaired s style spans j o nw e ts) :=
+  inv_new s style spans j o nw e ts hs
+
+example : Text.Inv (Text.new Variant.repaired ['a', '\r', '\x08', 'b'] (0 : Nat)) :=
+  text_ctor_total _ _ [] none none none _ _ (by intro sp h; cases h)
+example : (Text.new Variant.repaired ['a', '\r', '\x08', 'b'] (0 : Nat)).plain = ['a', 'b'] := by decide
+
+/-- **wrap_total.**  `Text.wrap(console, width, justify=, overflow=, tab_size=, no_wrap=)` of a consistent text never raises
+and returns consistent lines: EVERY width (0 and 1 included — a double-width character then does not fit and `chop_cells`
+yields an empty first chunk: the offsets repeat instead of increasing), every cell-width function, every `justify`
+(default / left / center / right / full) and `overflow` (fold / crop / ellipsis / ignore) as argument or attribute,
+`no_wrap` or not, every tab size ≥ 1; both variants of `rstrip_end`. -/
+theorem wrap_total {σ : Type} [BEq σ] (chars : Bool) (cw : Char → Nat) (A : Wrap.StyleAlg σ) (t : Text σ) (h : Text.Inv t) (w : Nat)
+    (justify : Option Justify) (overflow : Option Overflow) (ts : Nat) (hts : 0 < ts) (noWrap : Option Bool) :
+    ∃ lines, Wrap.wrap (Wrap.WVariant.fixed chars) cw A t w justify overflow (some ts) noWrap = .ok lines ∧
+      ∀ l ∈ lines, Text.Inv l :=
+  Wrap.wrap_total (chars := chars) cw A t h w justify overflow ts hts noWrap
+
+/-- `tab_size = 0` is not a valid option: `expand_tabs` divides by it (the console never passes 0:
+`console.tab_size or self.tab_size or 8`). -/
+example : Wrap.wrap Wrap.WVariant.repaired (fun _ => 1) Layout.alg (Text.new Variant.repaired ['a', '\t', 'b'] [0]) 5 none none (some 0)
+    = .error .zeroDivisionError := by decide
+
+/-- the offsets of `divide_line` at a width below a character's: ascending, not strictly -/
+example : Wrap.divideLine (fun _ => 2) ['a', 'b'] 1 true = [0, 1] := by decide
+
+/-- **text_render_total.**  `Text.render(console, end=e)` of a consistent text raises neither the `ValueError` of
+`stack.remove` nor the `RuntimeError` of `Style.combine(())`. -/
+theorem text_render_total {σ : Type} (t : Text σ) (h : Text.Inv t) (e : List Char) : ∃ segs, t.render e = .ok segs :=
+  Text.render_total t h e
+
+end
+
+open Layout in
+/-- `Text.__rich_console__` (wrap, `Text("\n").join`, render) of a consistent text never raises: every `ConsoleOptions`
+in force (`justify`, `overflow`, `no_wrap`), every width, every console `tab_size`. -/
+theorem text_console_total (cfg : Layout.Cfg) (hc : CfgRepaired cfg) (t : T) (h : Text.Inv t) (o : Opts) (w : Nat) :
+    ∃ s, textConsoleE cfg t o w = .ok s :=
+  textConsoleE_total cfg hc t h o w
+
+open Layout in
+/-- **print_plain_total.**  `Console.print(s, markup=False)` never raises: every string, every console width, every
+width function, `overflow` / `no_wrap` / `sep` / `end` / `crop` as given, emoji replacement on (any emoji table) or off,
+highlighting off or any highlighter keeping its contract (`HighlighterOk`: its spans lie inside the text; checked on
+rich's `ReprHighlighter` per generated case by `./check C14`). -/
+theorem print_plain_total (cfg : Layout.Cfg) (hc : CfgRepaired cfg) (po : PrintOpts)
+    (hhl : ∀ hl, po.highlighter = some hl → HighlighterOk hl) (s : List Char) (w : Nat) :
+    ∃ lines, printPlainE cfg po s w = .ok lines :=
+  printPlainE_total cfg hc po hhl s w
+
+/-- a console with every code variant repaired (what /repo contains); unit cell widths keep the examples small -/
+def exCfg : Layout.Cfg :=
+  { cw := fun _ => 1, env := { consoleWidth := 10 },
+    v := { zeroWidthChild := false, ruleRightRepeat := false, rstripCountsChars := false, columnsZeroCount := false },
+    wv := Wrap.WVariant.repaired, fl := Flags.allRepaired, poison := [Frames.seg ['!']] }
+
+example : Layout.CfgRepaired exCfg := ⟨⟨false, rfl⟩, rfl, rfl, rfl⟩
+example : HighlighterOk (fun x => [⟨0, x.length, [7]⟩]) := by
+  intro x sp hsp
+  simp only [List.mem_singleton] at hsp
+  subst hsp
+  exact ⟨Int.le_refl 0, Int.natCast_nonneg _, Int.le_refl _⟩
+example : (printPlainE exCfg {} ['a', 'b', ' ', 'c', '\t', 'd'] 2).toOption.map (·.map Layout.lineText)
+    = some [['a', 'b', '\n'], ['c', ' ', '\n'], ['d', '\n']] := by decide
+
+/-! ## Trees of built-in renderables (over the composition layer of C01/C09) -/
+
+open Layout in
+/-- **layout_total.**  For every tree of built-in renderables with valid options (`Valid`: every text consistent, every
+`padding` an int or a tuple of 1, 2 or 4 ints — all other options are naturals and enumerations) and the repaired code
+(`CfgRepaired`), no raising branch is taken anywhere in the tree (`AllOk`): at every node, for every `ConsoleOptions` in
+force and EVERY width a parent may hand down — any natural number, however far below the structural minimum —
+* a text (also the `Text` of a `Rule`, a table title / caption, the blank filler of `Columns`) wraps and renders;
+* `Panel.__rich_console__` and `__rich_measure__` unpack their padding;
+* `Table._calculate_column_widths` returns widths (no `AssertionError` of `ratio_distribute`: zero columns, zero-ratio
+  columns, `width` / `min_width` / `expand` in any combination), for rendering and for measuring;
+* `Columns` lays out at least one column (no `ZeroDivisionError`) and its inner grid's widths are computed;
+Padding / Align / Constrain / Styled / group / Bar / ProgressBar / Tree have no raising branch (their model functions are
+total).  `render` and `measure` of `Model/Layout.lean` are total functions: this theorem is what makes their poison
+branches unreachable.  No bound on depth, number of children, rows, columns, or widths. -/
+theorem layout_total (cfg : Layout.Cfg) (hc : CfgRepaired cfg) (r : R) (h : Valid r) : AllOk cfg r :=
+  allOk cfg hc r h
+
+open Layout in
+/-- what `AllOk` says at a table node, spelled out: the scrutinee of `tableConsole` is `some _` at every width -/
+theorem layout_total_table (cfg : Layout.Cfg) (hc : CfgRepaired cfg) (o : TableOpts) (cols : List Col) (h : Valid (.table o cols))
+    (w : Nat) :
+    ∃ ws, (toTable cfg o (colsR cfg cols)).calcWidths cfg.fl
+      ((toTable cfg o (colsR cfg cols)).width.getD (w : Int) - (toTable cfg o (colsR cfg cols)).extraWidth) = some ws := by
+  have := layout_total cfg hc _ h
+  rw [AllOk] at this
+  exact this.1.1 w
+
+section
+open Layout
+
+def exText (s : String) : R := .text (Text.new Variant.repaired s.toList [0])
+
+/-- a tree that raised three different ways in rich 9.10.0 as found: a table without columns asked to expand, a
+zero-ratio column next to a ratio column with `min_width`, `Columns` with a `width` wider than the console -/
+def exTree : R :=
+  .panel { box := 0, padding := [0, 1] }
+    (.group true [
+      .table { expand := true, box := some 0 } [],
+      .table { expand := true, minWidth := some 5, box := some 0, padding := ⟨0, 0, 0, 0⟩, padEdge := false }
+        [.mk { ratio := some 1 } (exText "") (exText "") [], .mk { ratio := some 0 } (exText "") (exText "") []],
+      .columns { lay := { width := some 30 } } [exText "ab", exText "c d"]])
+
+example : Valid exTree := by
+  have ht : ∀ s, Text.Inv (Text.new Variant.repaired s ([0] : S)) :=
+    fun s => text_ctor_total s _ [] none none none _ _ (by intro sp h; cases h)
+  simp only [exTree, exText, Valid, ValidL, ValidCols, ValidCol, OptInv, PadOk]
+  repeat' apply And.intro
+  all_goals first | exact ht _ | trivial | decide
+
+/-- the same tree on the model of the code as found renders the poison at width 3 (a raising branch is taken) … -/
+theorem old_layout_raises :
+    (render { exCfg with fl := Flags.repaired, v := { exCfg.v with columnsZeroCount := true } }
+      (.group true [.table { expand := true } [], .columns { lay := { width := some 30 } } [exText "ab"]]) {} 3)
+      = [Frames.seg ['!'], Frames.seg ['!']] := by decide
+
+/-- … and not with the repaired code -/
+example : (render exCfg (.group true [.table { expand := true } [], .columns { lay := { width := some 30 } } [exText "ab"]]) {} 3).all
+    (fun g => g.text != ['!']) = true := by decide
+
+end
+
 /-! ## Layout: what the frame / table models say -/
 
 open Frames in
-/-- `Panel`: with a valid `padding` option (an int, or a tuple of 1, 2 or 4 ints) neither
-`__rich_console__` nor `__rich_measure__` raises, at any width, over any child.  (The other frames —
-Padding, Align, Constrain, Styled, Rule, Bar, ProgressBar, Tree — are total functions of the child oracle in
-`Model/Frames*.lean`; `Columns` is `Props/C08.lean: columns_repaired_never_raises`.) -/
+/-- `Panel`: with a valid `padding` option (an int, or a tuple of 1, 2 or 4 ints) neither `__rich_console__` nor
+`__rich_measure__` raises, at any width, over any child oracle. -/
 theorem panel_total (cw : Char → Nat) (env : Env) (v : Frames.Variant) (o : PanelOpts) (c : Child σ) (w mw : Int)
     (hp : o.padding.length = 1 ∨ o.padding.length = 2 ∨ o.padding.length = 4) :
-    (∃ r, panelConsole cw env v o c w = .ok r) ∧ (∃ m, panelRichMeasure cw o c mw = .ok m) := by
-  have hu : ∃ p, unpackPad o.padding = .ok p := by
-    match h : o.padding, hp with
-    | [a], _ => exact ⟨_, rfl⟩
-    | [a, b], _ => exact ⟨_, rfl⟩
-    | [a, b, c', d], _ => exact ⟨_, rfl⟩
-    | [], hp => simp at hp
-    | [_, _, _], hp => simp at hp
-    | _ :: _ :: _ :: _ :: _ :: _, hp => simp at hp
-  obtain ⟨p, hu⟩ := hu
-  constructor
-  · simp only [panelConsole, hu]
-    repeat' split
-    all_goals exact ⟨_, rfl⟩
-  · simp only [panelRichMeasure, hu]
-    repeat' split
-    all_goals exact ⟨_, rfl⟩
+    (∃ r, panelConsole cw env v o c w = .ok r) ∧ (∃ m, panelRichMeasure cw o c mw = .ok m) :=
+  Layout.panel_ok cw env v o c w mw hp
 
 example : ([0, 1] : List Nat).length = 1 ∨ ([0, 1] : List Nat).length = 2 ∨ ([0, 1] : List Nat).length = 4 := by decide
 
